@@ -86,6 +86,13 @@ def build(tier, seed):
     pairs += [(a, b) for a in sw for b in (D_A, DUP3)] + [(b, a) for a in sw for b in (D_A, DUP3)]
     if tier == "thorough":
         pairs += [(a, b) for a in (S_LONG, R_LONG) for b in (OVW, KEEP, RD_R, SD_S, P_OK)] + [(b, a) for a in (S_LONG, R_LONG) for b in (OVW, KEEP, RD_R, SD_S, P_OK)]
+    if tier == "quick":
+        # every unordered pair of switches in one seeded order + each switch against a value flag, in one order
+        keep = [(a, b) for i, a in enumerate(sw) for b in sw[i + 1:]]
+        keep = [(a, b) if rnd.random() < 0.5 else (b, a) for a, b in keep]
+        keep += [((a, D_A) if rnd.random() < 0.5 else (D_A, a)) for a in sw] + [((a, DUP3) if rnd.random() < 0.5 else (DUP3, a)) for a in sw]
+        keep += [(OVW, R), (R, OVW)]
+        pairs = keep
     for pr in pairs:
         vs.append((pr, 0, 9, 0))
     # symbolic numbers inside longer vectors
@@ -102,6 +109,11 @@ def build(tier, seed):
         I.append(digits("c17_dup_digits%d" % d, 0, d))
     for d in ((4, 5) if tier == "quick" else (1, 2, 3, 4, 5)):
         I.append(digits("c17_port_digits%d" % d, 1, d))
-    return Check("C17", tier, I, seed, functions=FUNCS, assumptions=ASSUME,
+    # the client's flag set (feature `client`)
+    import c17client
+    I += c17client.instances(tier, rnd)
+    return Check("C17", tier, I, seed, features=("verif", "client"), functions=FUNCS + ["ClientConfig::new", "server::convert_file_path (file argument)"],
+                 assumptions=ASSUME + ["client: same method over the client's flag table; ClientConfig::new does not skip the program name (it is parsed as the file argument, later file arguments override it); "
+                                       "directory and file fields compared by length only (Path bytes of concrete literals)"],
                  explanation="Config::new on argument vectors over a flag-group table against a last-occurrence-wins reference fold with the documented defaults; "
                              "numeric values as symbolic digit strings (solver-decided), flag order/subset enumerated")
